@@ -589,6 +589,12 @@ func runRepro(o *Out, _ *rand.Rand, thorough bool) {
 			p = Profile{MaxStops: 10 + rng.Intn(8), MaxVehicles: 3, MultiRes: true, Capacity: true}
 			div = 100
 		}
+		if ci%8 == 7 {
+			// more than twenty stops that share a coordinate (all generated stops lie on one parallel): the un-plan operator
+			// walks the twenty closest stops of a stop, found through a k-d tree whose pivots come from a process-wide random
+			// source — the list must be the same for every model built from the same input (E43)
+			p = Profile{MaxStops: 60, MinStopCount: 40, MaxVehicles: 3}
+		}
 		c := genCase(rng, p)
 		// ties: collapse the matrices to few distinct values
 		for _, m := range [][][]int{c.Dur, c.Dist} {
@@ -603,6 +609,20 @@ func runRepro(o *Out, _ *rand.Rand, thorough bool) {
 		}
 		c.Solve = &CSolve{Runs: 1, Starts: rng.Intn(2), Det: rng.Intn(2) == 0, Iters: 300 + rng.Intn(500),
 			Mode: []string{"single", "parallel-norestart", "parallel"}[ci%3]}
+		if ci%8 == 7 {
+			c.Grid = true
+			c.feature("stops-on-a-grid")
+			// the default solver options (un-plan counts that grow): the island operator walks far down the list
+			c.Solve.Iters = 1200 + rng.Intn(600)
+			c.Solve.Det = true
+			if ci%16 == 7 {
+				c.Solve.Mode = "parallel"
+			} else {
+				// the single solver with un-plan counts that grow (no known finding absorbs a difference here)
+				c.Solve.Mode = "single"
+				c.feature("growing-unplan-count")
+			}
+		}
 		if ci%3 == 1 {
 			// several random start solutions (built by helper goroutines of NewParallelSolver): their seeds must not depend on
 			// which helper gets to the shared empty solution first
@@ -622,7 +642,8 @@ func runRepro(o *Out, _ *rand.Rand, thorough bool) {
 		}
 		o.Count("repro-mode:" + mode)
 		results := map[string]int{}
-		var first string
+		var first, firstClosest string
+		closestDiffer := 0
 		var perRep, sigs []string
 		nreps := reps
 		if p.MultiRes {
@@ -646,6 +667,12 @@ func runRepro(o *Out, _ *rand.Rand, thorough bool) {
 				}
 				break
 			}
+			// what the un-plan operators walk: every stop's list of closest stops, in the order the model hands it out
+			if cd := closestDigest(bt.model); rep == 0 {
+				firstClosest = cd
+			} else if cd != firstClosest {
+				closestDiffer++
+			}
 			switch rep % 3 {
 			case 1:
 				// the producer of stop orders is slowed down: a consumer that shared its random source would draw first
@@ -666,7 +693,11 @@ func runRepro(o *Out, _ *rand.Rand, thorough bool) {
 				ParallelRuns: 1, StartSolutions: c.Solve.Starts, RunDeterministically: c.Solve.Det}
 			switch mode {
 			case "single":
-				sols, serr, span = solveSingle(bt.model, c.Solve.Iters, rep%3 == 2)
+				opt := singleSolverOptions()
+				if c.Grid {
+					opt.Unplan = nextroute.IntParameterOptions{StartValue: 2, DeltaAfterIterations: 25, Delta: 2, MinValue: 2, MaxValue: 20, SnapBackAfterImprovement: true, Zigzag: true}
+				}
+				sols, serr, span = solveSingleOpt(bt.model, c.Solve.Iters, rep%3 == 2, opt)
 			case "parallel-norestart":
 				sols, _, serr, span = solveAllWith(bt.model, popt, func(ps nextroute.ParallelSolver) {
 					ps.SetSolverFactory(func(_ nextroute.ParallelSolveInformation, s nextroute.Solution) (nextroute.Solver, error) {
@@ -721,6 +752,10 @@ func runRepro(o *Out, _ *rand.Rand, thorough bool) {
 			o.Violate(Violation{Property: "C12", Clause: "results-differ-between-runs", Sig: "C12|results-differ-between-runs|" + mode + "|" + strings.Join(devs, "+"),
 				Detail: fmt.Sprintf("%d distinct results in %d runs (%s); first: %.300s || other: %.300s", len(results), reps, strings.Join(perRep, " "), first, other), Replay: c})
 		}
+		if closestDiffer > 0 {
+			o.Violate(Violation{Property: "C12", Clause: "closest-stops-differ-between-builds", Sig: "C12|closest-stops-differ-between-builds|" + mode,
+				Detail: fmt.Sprintf("%d of %d further models built from the same input hand out a different order of closest stops than the first (the un-plan operators walk these lists)", closestDiffer, len(perRep)-1), Replay: c})
+		}
 		multi := false
 		for _, f := range c.Features {
 			if f == "fork" || f == "diamond" {
@@ -736,6 +771,23 @@ func runRepro(o *Out, _ *rand.Rand, thorough bool) {
 			break
 		}
 	}
+}
+
+// closestDigest: for every stop of the model the indices of its closest stops in the order ClosestStops returns them.
+func closestDigest(m nextroute.Model) string {
+	var sb strings.Builder
+	for _, st := range m.Stops() {
+		cs, err := st.ClosestStops()
+		if err != nil {
+			sb.WriteString("err;")
+			continue
+		}
+		for _, x := range cs {
+			fmt.Fprintf(&sb, "%d,", x.Index())
+		}
+		sb.WriteString(";")
+	}
+	return sb.String()
 }
 
 // factoryOutput: the formatted last solution without timing fields.
@@ -762,12 +814,16 @@ func indexOf(l *[]string, s string) int {
 // solveSingle: the single solver as shipped (unplan, plan, restart after 150 iterations without improvement), read by a
 // plain consumer — optionally a slow one.
 func solveSingle(model nextroute.Model, iters int, slowConsumer bool) (sols []nextroute.Solution, err error, pan any) {
+	return solveSingleOpt(model, iters, slowConsumer, singleSolverOptions())
+}
+
+func solveSingleOpt(model nextroute.Model, iters int, slowConsumer bool, opt nextroute.SolverOptions) (sols []nextroute.Solution, err error, pan any) {
 	defer func() {
 		if r := recover(); r != nil {
 			pan = r
 		}
 	}()
-	solver, e := nextroute.NewSolver(model, singleSolverOptions())
+	solver, e := nextroute.NewSolver(model, opt)
 	if e != nil {
 		return nil, e, nil
 	}
